@@ -26,6 +26,7 @@ Gradient conventions of the routines (all take the forward's parameters plus the
 import numpy as np
 
 from mc import ScopeUnit, FAILED
+from mc import ref_dft
 from mc.linalg import dense, deltas
 from mc.state import reset_executors
 
@@ -203,6 +204,7 @@ def run_mdft(case, seed, R):
                 f = lambda a: fwd(a, Q, s_out, shift)          # noqa
                 b = lambda g: bp(g, Q, s_in, shift)            # noqa
                 adjoint_check(R, f, b, si, so, seed, 3, sig, f'{name} {si}->{so} Q={Q} shift={shift}', eps=eps)
+                R.call(bp, dense(so, seed, 4), Q, s_in, shift, sig=sig + ':exception')    # direct call, array explicit (call hygiene)
         finally:
             config.precision = 64
     R.nontrivial(True)
@@ -248,6 +250,8 @@ def run_wrappers(case, seed, R):
     b = lambda g: propagation.unfocus_fixed_sampling_backprop(g, dxo, efl, wvl, dxi, Narg, shift=shift_u, method='mdft')   # noqa
     sig = f'unfocus_fixed_sampling_backprop:{geom_class(n, N)}:{shc}'
     adjoint_check(R, f, b, N, n, seed, 7, sig, f'unfocus_fixed_sampling focal {N} -> pupil {n}')
+    R.call(propagation.focus_fixed_sampling_backprop, dense(N, seed, 8), dxi, efl, wvl, dxo, narg, shift=shift_f, sig='focus_fixed_sampling_backprop:exception')
+    R.call(propagation.unfocus_fixed_sampling_backprop, dense(n, seed, 8), dxo, efl, wvl, dxi, Narg, shift=shift_u, sig='unfocus_fixed_sampling_backprop:exception')
     # ---- czt: documented as not implemented (ValueError); anything returned instead must be the same adjoint
     g = dense(N, seed, 9)
     try:
@@ -336,6 +340,9 @@ def run_babinet(case, seed, R):
     def b(g):
         return Wavefront(g, wvl, dx, 'pupil').babinet_backprop(efl, cp(lyot), fpm.copy(), fdx, method='mdft').data
     adjoint_check(R, f, b, n, n, seed, 23, sig, what)
+    # once with every array argument explicit (call hygiene: memory layout, in-place modification of gradient / mask / stop)
+    R.call(lambda g, ly, m: Wavefront(g, wvl, dx, 'pupil').babinet_backprop(efl, ly, m, fdx, method='mdft').data, dense(n, seed, 25), cp(lyot), fpm.copy(),
+           sig=sig + ':exception')
     R.nontrivial(True)
     R.outcome(f'babinet:lyot-{lkind}:{feats}')
 
@@ -357,6 +364,8 @@ def run_modes(case, seed, R):
     eps = np.finfo(np.float32).eps if kind == 'float32' else np.finfo(float).eps
     adjoint_check(R, f, b, (k,), (m, n), seed, 31, sig, f'sum_of_2d_modes k={k} modes of shape {(m, n)} ({kind}, {form})',
                   eps=eps, cplx=cplx, dtype=(np.float32 if kind == 'float32' else None))
+    g = dense((m, n), seed, 33, complex_=cplx).astype(modes.dtype)
+    R.call(polynomials.sum_of_2d_modes_backprop, marg(), g, sig=sig + ':exception')      # modes and gradient explicit (call hygiene)
     R.nontrivial(True)
     R.outcome(f'modes:{kind}')
 
@@ -442,8 +451,106 @@ def run_dm(case, seed, R):
     ok = adjoint_check(R, f, b, ash, (Nout, Nout), seed, 41, sig,
                        f'DM N={N} Nact={Nact} sep={sep} shift={shift} Nout={Nout} upsample={up} wfe={wfe}', cplx=False, dense_too=True,
                        fsig='DM.render:' + ('per-axis-Nact' if isinstance(Nact, list) else 'Nact'))
+    R.call(dm.render_backprop, dense((Nout, Nout), seed, 43, complex_=False), wfe, sig=sig + ':exception')   # the caller's own array (call hygiene)
     R.nontrivial(True)
     R.outcome('dm:' + feats + ('' if ok else ':violation'))
+
+
+# ---------------------------------------------------------------------------------------------
+# 8. size thresholds (fast paths): NOT closed over the data dimension -- a probe alphabet instead of the full basis
+
+def _probes(shape, seed, salt):
+    o = np.zeros(shape, dtype=complex)
+    o[shape[0] // 2, shape[1] // 2] = 1
+    c = np.zeros(shape, dtype=complex)
+    c[-1, -1] = 1j
+    return [('origin', o), ('corner', c), ('dense', dense(shape, seed, salt))]
+
+
+def probe_adjoint(R, fwd_call, bp_call, si, so, Qref, shift, forward, seed, tol, sig, what):
+    """fwd_call(x) / bp_call(y) go through R.call with explicit array arguments.
+    (a) <y, A x> == <B y, x> for all probe pairs; (b) unshifted: B y == textbook adjoint Ay^H y conj(Ax)
+    (a shifted transform may carry a per-output-sample phase, so (b) is then replaced by (a) alone)."""
+    xs = _probes(si, seed, 51)
+    ys = _probes(so, seed, 53)
+    Ax = [fwd_call(x.copy()) for _, x in xs]
+    By = [bp_call(y.copy()) for _, y in ys]
+    if any(v is FAILED for v in Ax + By):
+        return
+    try:
+        Ax = [np.asarray(v) for v in Ax]
+        By = [np.asarray(v) for v in By]
+        shapes_ok = all(v.shape == tuple(so) for v in Ax) and all(v.shape == tuple(si) for v in By)
+    except Exception as e:   # noqa
+        R.violation(sig + ':output', f'{what}: uncomparable output: {type(e).__name__}: {e}')
+        return
+    if not shapes_ok:
+        R.violation(sig + ':output', f'{what}: output shapes {[v.shape for v in Ax]} / {[v.shape for v in By]}, expected {tuple(so)} / {tuple(si)}')
+        return
+    for (lx, x), ax in zip(xs, Ax):
+        for (ly, y), by in zip(ys, By):
+            lhs = complex(np.sum(np.conj(y) * ax))
+            rhs = complex(np.sum(np.conj(by) * x))
+            nrm = float(np.linalg.norm(x) * np.linalg.norm(y))
+            R.expect(abs(lhs - rhs) <= tol * max(1.0, nrm), sig,
+                     f'{what}: <y, A x> = {lhs:.10g} but <A^H y, x> = {rhs:.10g} (x = {lx}, y = {ly})')
+    if not c01.is_shifted(shift):
+        Ay, Axm = ref_dft.dft2_factors(tuple(si), tuple(so), Qref, shift, forward)
+        for (ly, y), by in zip(ys, By):
+            ref = Ay.conj().T @ y @ Axm.conj()
+            R.expect_close(by, ref, tol * max(1.0, float(np.abs(ref).max())) * max(1.0, float(np.abs(y).max())), sig,
+                           f'{what}: companion output vs textbook adjoint sum Ay^H y conj(Ax) (y = {ly})')
+
+
+def run_large(case, seed, R):
+    n, N = tuple(case['in']), tuple(case['out'])
+    Q = c01.mk_Q(case['Q'])
+    shift = tuple(case['shift'])
+    big = max(n + N)
+    sq = c01.shape_class(n, N)
+    mkcell = lambda q: f"{sq}:{'Q=1' if tuple(q) == (1.0, 1.0) else 'Q-generic'}:{'same-grid' if n == N else 'other-grid'}:{c01.shift_class(shift)}"   # noqa
+    cell = mkcell(ref_dft.norm_pair(Q))
+    # ---- engine
+    for prec in (64, 32):
+        reset_executors(prec)
+        try:
+            e = np.finfo(np.float32 if prec == 32 else np.float64).eps
+            tol = 200 * e * big ** 1.5
+            for name, forward in (('dft2', True), ('idft2', False)):
+                f0 = getattr(fttools.mdft, name)
+                b0 = getattr(fttools.mdft, name + '_backprop')
+                sig = f'{name}_backprop:large:{cell}' + (':p32' if prec == 32 else '')
+                s_in = n if (n[0] != n[1] or prec == 32) else n[0]
+                probe_adjoint(R, lambda x: R.call(f0, x, Q, N, shift, sig=sig + ':forward:exception'),
+                              lambda y: R.call(b0, y, Q, s_in, shift, sig=sig + ':exception'),
+                              n, N, ref_dft.norm_pair(Q), shift, forward, seed, tol, sig, f'{name} {n}->{N} Q={Q} shift={shift} p{prec}')
+        finally:
+            config.precision = 64
+    # ---- fixed-sampling wrappers at the same per-axis Q along axis 0 (Q == 1 exactly when the case says 1)
+    reset_executors(64)
+    tol = 200 * np.finfo(float).eps * big ** 1.5
+    wvl, efl, dxi = 0.5, 100.0, 0.1
+    q0 = ref_dft.norm_pair(Q)[0]
+    # focus: pupil n -> focal N.  dxo is formed exactly like Q_for_sampling forms its resolution element, so q0 == 1 gives Q == 1.0
+    dxo = ((wvl * efl) / (n[0] * dxi)) / q0
+    Qf = tuple(((wvl * efl) / (na * dxi)) / dxo for na in n)
+    shf = (shift[0] * dxo, shift[1] * dxo)
+    sig = f'focus_fixed_sampling_backprop:large:{mkcell(Qf)}'
+    probe_adjoint(R, lambda x: R.call(propagation.focus_fixed_sampling, x, dxi, efl, wvl, dxo, N, shift=shf, sig=sig + ':forward:exception'),
+                  lambda y: R.call(propagation.focus_fixed_sampling_backprop, y, dxi, efl, wvl, dxo, n, shift=shf, sig=sig + ':exception'),
+                  n, N, Qf, shift, True, seed, tol, sig, f'focus_fixed_sampling pupil {n} -> focal {N}, per-axis Q={Qf}, shift={shift} samples')
+    # unfocus: focal n (dx=dxf) -> pupil N (dx=dxp); per-axis Q' = wvl*efl/(n_axis*dxf*dxp)
+    # (dxf is formed exactly like the wrapper forms its resolution element, so q0 == 1 on the same grid gives Q == 1.0)
+    dxp = 0.125
+    dxf = ((wvl * efl) / (dxp * N[0])) / q0 * (N[0] / n[0])
+    Qu = tuple((wvl * efl) / (na * dxf * dxp) for na in n)
+    shu = (shift[0] * dxp, shift[1] * dxp)
+    sig = f'unfocus_fixed_sampling_backprop:large:{mkcell(Qu)}'
+    probe_adjoint(R, lambda x: R.call(propagation.unfocus_fixed_sampling, x, dxf, efl, wvl, dxp, N, shift=shu, sig=sig + ':forward:exception'),
+                  lambda y: R.call(propagation.unfocus_fixed_sampling_backprop, y, dxf, efl, wvl, dxp, n, shift=shu, sig=sig + ':exception'),
+                  n, N, Qu, shift, False, seed, tol, sig, f'unfocus_fixed_sampling focal {n} -> pupil {N}, per-axis Q={Qu}, shift={shift} samples')
+    R.nontrivial(True)
+    R.outcome('large:' + cell)
 
 
 # ---------------------------------------------------------------------------------------------
@@ -493,6 +600,20 @@ def units(tier, seed):
                         for Nout in (Nint - 3 if Nint >= 6 else Nint - 1, Nint, Nint + 3):
                             for wfe in (True, False):
                                 dm_cases.append({'N': N, 'Nact': Nact, 'sep': sep, 'shift': shift, 'Nout': Nout, 'upsample': up, 'wfe': wfe})
+    # --- size thresholds
+    big_shapes = [[63, 63], [64, 64], [65, 65], [64, 65], [65, 64], [65, 67], [101, 64], [66, 64], [127, 127], [128, 128], [129, 129], [128, 129], [129, 131]]
+    if not quick:
+        big_shapes += [[255, 255], [256, 256], [257, 257], [256, 257], [300, 301]]
+    large_cases = []
+    for sh_ in big_shapes:
+        for Q in (1, [1, 1], 1.0, 1.37, [1, 1.37]):
+            outs = [(sh_, [0, 0]), (sh_, [1, 0]), (sh_, [0.5, -1.25]), ([sh_[0] + 1, sh_[1]], [0, 0])]
+            if sh_[0] != sh_[1]:
+                outs.append((sh_[::-1], [0, 0]))
+            for so, shift in outs:
+                if quick and (isinstance(Q, list) or isinstance(Q, float)) and Q != 1.37 and (shift != [0, 0] or so != sh_):
+                    continue
+                large_cases.append({'in': sh_, 'out': so, 'Q': Q, 'shift': shift})
     shapes_txt = f'pupil shapes [{lo}..{hi}]^2 (square and non-square) x focal/mask shapes [{foc[0][0]}..{hi + 1}]^2 (smaller, equal, larger, non-square)'
     orc = ('oracle: forward operator A_R and companion operator B_R read off the FULL bases (delta and i*delta of every sample, '
            'i.e. over R^(2n)); B_R = A_R^T entry-wise (== B = A^H), plus <y,f(x)> = <b(y),x> for one seeded dense pair')
@@ -516,6 +637,13 @@ def units(tier, seed):
         ScopeUnit('lin_spgrad', sg_cases, run_spgrad,
                   f'every array shape in [1..{Bs}]^2: SpatialGradient2D forward_x/backprop_x, forward_y/backprop_y operator matrices, exact (integer) comparison B = A^T, '
                   'dense complex pair, and forward_y == forward_x along axis 0; non-trivial when an axis has an interior sample', reset=rs),
+        ScopeUnit('lin_large', large_cases, run_large,
+                  f'THRESHOLD ALPHABET (fast paths; this unit is NOT closed over the data dimension): shapes {big_shapes} x Q in {{1, (1,1), 1.0, 1.37, (1,1.37)}} x '
+                  '{same output grid with shift 0 / (1,0) / (0.5,-1.25), output grid one row longer, transposed output grid}'
+                  + (' (quick: the redundant spellings of Q=1 only on the same grid with zero shift)' if quick else '')
+                  + ': dft2/idft2 and their _backprop (precision 64 and 32), focus_/unfocus_fixed_sampling and their _backprop at the sampling that gives that Q along axis 0 '
+                  '(exactly 1.0 when Q=1); probes x, y in {delta at the origin, i*delta at the last corner, seeded dense}; oracle: <y, A x> = <A^H y, x> for all 9 probe pairs and, '
+                  'unshifted, companion output == textbook adjoint sum Ay^H y conj(Ax) of mc/ref_dft; tolerance 200 eps n^1.5', reset=rs),
         ScopeUnit('lin_dm', dm_cases, run_dm,
                   f'N in {sorted({c["N"] for c in dm_cases})} x Nact in {{2, 3, (3,2)}} x sep in {{2, 3, (3,2)}} x shift in {{0, (0.5,-1.25)}} x upsample in {{1, 2, 0.5}} x Nout in {{<, =, >}} the resampled size (parity-changing) x wfe in {{True, False}}; '
                   'skewed-Gaussian influence function; DM.render as a map actuators -> surface (full actuator basis) against DM.render_backprop on the full basis of upstream gradients, B = A^T entry-wise. '
